@@ -953,16 +953,25 @@ impl FileScheduler {
         let mut merged_requests = Vec::with_capacity(request.len());
 
         // Coalescing (and un-coalescing) relies on the requested ranges being sorted by start
-        // offset.  Anything else is rejected below, before any I/O is issued.
-        let is_sorted = request
-            .iter()
-            .filter(|req| !req.is_empty())
-            .map(|req| req.start)
-            .is_sorted();
+        // offset.  Callers normally submit sorted lists.  When they do not (e.g. a range that
+        // overlaps an earlier range which was split into chunks) we work on a sorted copy and
+        // put the buffers back into request order at the end.
+        let is_sorted = request.iter().map(|req| req.start).is_sorted();
+        let request_order = if is_sorted {
+            None
+        } else {
+            let mut order = (0..request.len()).collect::<Vec<_>>();
+            order.sort_by_key(|&idx| request[idx].start);
+            Some(order)
+        };
+        let request = match &request_order {
+            None => request,
+            Some(order) => order.iter().map(|&idx| request[idx].clone()).collect(),
+        };
 
         // Empty ranges need no I/O (they are answered with an empty buffer below)
         let mut to_merge = request.iter().filter(|req| !req.is_empty());
-        if let (true, Some(first)) = (is_sorted, to_merge.next()) {
+        if let Some(first) = to_merge.next() {
             let mut curr_interval = first.clone();
 
             for req in to_merge {
@@ -1006,15 +1015,6 @@ impl FileScheduler {
         let mut final_bytes = Vec::with_capacity(request.len());
 
         async move {
-            if !is_sorted {
-                return Err(Error::invalid_input(
-                    format!(
-                        "byte ranges submitted to the file scheduler must be sorted by start offset, got {:?}",
-                        request
-                    ),
-                    location!(),
-                ));
-            }
             let bytes_vec = bytes_vec_fut.await?;
 
             // We need to undo the coalescing and splitting done earlier.  The updated requests
@@ -1033,13 +1033,13 @@ impl FileScheduler {
                 let updated_range = match updated_requests.get(updated_index) {
                     Some(updated_range) if updated_range.start <= orig_range.start => updated_range,
                     _ => {
-                        return Err(Error::invalid_input(
-                            format!(
-                                "byte ranges submitted to the file scheduler must be sorted by start offset, got {:?}",
-                                request
-                            ),
-                            location!(),
-                        ));
+                        return Err(Error::Internal {
+                            message: format!(
+ "could not locate the requested byte ranges {:?} in the coalesced reads",
+ request
+ ),
+                            location: location!(),
+                        });
                     }
                 };
                 let start = (orig_range.start - updated_range.start) as usize;
@@ -1059,13 +1059,13 @@ impl FileScheduler {
                         let next_bytes = match bytes_vec.get(updated_index) {
                             Some(next_bytes) if !next_bytes.is_empty() => next_bytes,
                             _ => {
-                                return Err(Error::invalid_input(
-                                    format!(
-                                        "byte ranges submitted to the file scheduler must be sorted by start offset, got {:?}",
-                                        request
-                                    ),
-                                    location!(),
-                                ));
+                                return Err(Error::Internal {
+                                    message: format!(
+ "could not locate the requested byte ranges {:?} in the coalesced reads",
+ request
+ ),
+                                    location: location!(),
+                                });
                             }
                         };
                         let bytes_to_take = (orig_size - merged_bytes.len()).min(next_bytes.len());
@@ -1075,7 +1075,16 @@ impl FileScheduler {
                 }
             }
 
-            Ok(final_bytes)
+            match request_order {
+                None => Ok(final_bytes),
+                Some(order) => {
+                    let mut ordered_bytes = vec![Bytes::new(); final_bytes.len()];
+                    for (bytes, idx) in final_bytes.into_iter().zip(order) {
+                        ordered_bytes[idx] = bytes;
+                    }
+                    Ok(ordered_bytes)
+                }
+            }
         }
     }
 
